@@ -823,6 +823,18 @@ class SymInt(SymBase):
     def __hash__(self):
         return hash(ctx().unique_value(self.z))
 
+    def to_bytes(self, length=1, byteorder="big", *, signed=False):
+        from .models import _pack_int, mkbytes
+
+        if byteorder not in ("little", "big"):
+            raise ValueError("byteorder must be either 'little' or 'big'")
+        try:
+            return mkbytes(_pack_int(self, length, signed, byteorder == "little", "to_bytes"))
+        except Exception as e:  # struct.error -> OverflowError, as int.to_bytes raises
+            if type(e).__name__ == "error":
+                raise OverflowError("int too big to convert")
+            raise
+
     def __bool__(self):
         return ctx().branch(self.z != 0)
 
